@@ -214,6 +214,7 @@ func (ex *Executor) symbolicParam(st *State, name string, ty types.Type) Val {
 	}
 	if _, ok := ty.Underlying().(*types.Slice); ok {
 		ex.sliceFacts(st, t)
+		st.assume(And(Ge(ex.sarr(t), Num(0)), Le(ex.sarr(t), Sym("alloc@0", SInt))))
 	}
 	return v
 }
@@ -717,6 +718,8 @@ func (ex *Executor) loadedFacts(st *State, v Val) {
 		}
 		if _, ok := v.Ty.Underlying().(*types.Slice); ok {
 			ex.sliceFacts(st, v.T)
+			// the backing array of a slice that already exists was allocated earlier
+			st.assume(And(Ge(ex.sarr(v.T), Num(0)), Le(ex.sarr(v.T), st.alloc)))
 		}
 	}
 }
